@@ -38,9 +38,11 @@ MIN_BUDGET = 40
 def generate(seed, tier="quick"):
     rng = sub(seed, "program")
     prof = V.draw_profile(sub(seed, "profile"), max_depth=2)
-    if sub(seed, "norepr").random() < 0.85:
+    if sub(seed, "norepr").random() < 0.6:
         prof.special = [s for s in prof.special if s != "norepr"]
-    prog = W.gen_program(rng, prof, {"prev": ["none", "same", "other", "edit", "slack", "wrong", "subset", "superset"], "n_files": (1, 2), "n_sites": (1, 4),
+    elif "norepr" not in prof.special:
+        prof.special.append("norepr")
+    prog = W.gen_program(rng, prof, {"prev": ["none", "same", "other", "edit", "slack", "wrong", "subset", "superset"], "n_files": (1, 3), "n_sites": (1, 4),
                                      "n_tests": (1, 4), "styles": ["assert", "rec"], "raise_events": 0.2, "hand": 0.4})
     frng = sub(seed, "flags")
     steps = []
